@@ -197,7 +197,7 @@ def check_decision(call, placements, report):
     fixed = []
     for r in call["running"]:
         fixed.append({"task": r["task"], "start": now, "end": max(r["end"], now), "demand": r["demand"],
-                      "worker": r["worker"], "pool": r.get("pool")})
+                      "worker": r["worker"], "pool": r.get("pool"), "running": True})
     for tid, s in call["scheduled"].items():
         if tid in redecided:
             continue
@@ -210,6 +210,11 @@ def check_decision(call, placements, report):
         if not exists_assignment(fixed, call["workers"]):
             call["input_infeasible"] = True
         elif not exists_assignment(fixed + merged, call["workers"]):
-            report("joint_capacity", f"placements {[(i['task'], i['start'], i['end'], i['demand'], i['worker']) for i in merged]} "
+            running_only = [f for f in fixed if f.get("running")]
+            kind = "joint_capacity"
+            if exists_assignment(running_only + merged, call["workers"]):
+                # only a previously scheduled, not yet started task is in the way
+                kind = "joint_capacity_vs_pending_scheduled"
+            report(kind, f"placements {[(i['task'], i['start'], i['end'], i['demand'], i['worker']) for i in merged]} "
                                      f"with fixed {[(i['task'], i['start'], i['end'], i['demand'], i['worker']) for i in fixed]} "
                                      f"exceed capacity {call['workers']}")
